@@ -5,6 +5,7 @@ package main
 // and a tuned fraction is adversarial.
 
 import (
+	"bytes"
 	"github.com/btcsuite/btcutil/base58"
 	"encoding/hex"
 	"fmt"
@@ -735,6 +736,17 @@ func (g *Gen) famAol() {
 			w := g.addr(r.Intn(6))
 			if r.Chance(0.25) { // a writer need not be a 20-byte account: module/ADR-028 addresses are 32 bytes, any 1..255 is legal
 				w = sdk.AccAddress(Keyed(7, "oddwriter", uint64(r.Intn(6))).Bytes([]int{1, 19, 21, 32, 64, 255}[r.Intn(6)])).String()
+				if r.Chance(0.3) {
+					// addresses at the edges of the key space: all 0xff (no successor of the same length), ending in 0xff, all zero
+					ff := bytes.Repeat([]byte{0xff}, []int{1, 20, 32}[r.Intn(3)])
+					switch r.Intn(3) {
+					case 1:
+						ff = append(Keyed(7, "ff-tail", uint64(r.Intn(3))).Bytes(19), 0xff)
+					case 2:
+						ff = make([]byte, []int{1, 20}[r.Intn(2)])
+					}
+					w = sdk.AccAddress(ff).String()
+				}
 			}
 			g.tx(M("aol.AddWriter", "topic", t[1], "owner", t[0], "writer", w, "moniker", g.punctName([]string{"", "mon", "m-._", strings.Repeat("m", 70)}[r.Intn(4)]), "desc", []string{"", "writer"}[r.Intn(2)]))
 		case 1:
